@@ -99,7 +99,8 @@ async def main():
         mgr = client.transfers
         if not RACE:
             # the installed chain through SharesManager.calculate_download_path and _prepare_download_path
-            for rp in ['a\\..\\song.mp3', 'a/../../x', '..', 'u\\dir\\song.mp3', 'song (1).mp3', '@@x\\..\\.\\f']:
+            open(os.path.join(dl, 'caf\u00e9.mp3'), 'w').close()          # composed (NFC) name exists; the decomposed (NFD) one is offered
+            for rp in ['a\\..\\song.mp3', 'a/../../x', '..', 'u\\dir\\song.mp3', 'song (1).mp3', '@@x\\..\\.\\f', 'u\\cafe\u0301.mp3', 'u\\caf\u00e9.mp3']:
                 try:
                     d, name = client.shares.calculate_download_path(rp)
                 except IndexError:
